@@ -404,8 +404,8 @@ Section Sound.
 
   Lemma rule_env_okb_sound : forall a pd re, rule_env_okb prog sol a pd re = true -> rule_env_ok prog sol a pd re.
   Proof.
-    intros a pd re H. unfold rule_env_okb in H. apply andb_true_iff in H as [H H3]. apply andb_true_iff in H as [H1 H2].
-    split; [apply value_is_ref_sound; exact H1|]. split; [exact H2 | apply chk_list_sound; exact H3].
+    intros a pd re H. unfold rule_env_okb in H. apply andb_true_iff in H as [H1 H3].
+    split; [apply value_is_ref_sound; exact H1 | apply chk_list_sound; exact H3].
   Qed.
 
   Lemma goal_rules_okb_sound : forall ar, goal_rules_okb prog sol ar = true ->
